@@ -52,8 +52,8 @@ MANIFEST = dict(
          "by tables holding more than INT_MAX/4 entries. lh_table_resize to a size so small that the new table grows while refilled "
          "(repaired defect lh.resize.size-not-propagated) is covered: resize_refines holds for every positive size and rests on the "
          "source fact lhResizeKeepsArgSize = false. The model is hand-written: theorems are about the model, the correspondence run is testing. Tie by translation (new): lh_table_lookup_entry_w_hash is translated from clang's typed AST of the current source into Lean on every run (tools/extract/c2lean.py -> Generated/Translated.lean; the probe loop becomes a recursive definition over explicit fuel, the loads of t->table[n].k and equal_fn's verdicts are inputs, one per iteration) and Lemmas/TranslatedLh.lean proves by induction that Model/Linkhash.lean's lookup returns none / slot j exactly when the C function returns NULL / &t->table[j], given that memory answers what the table holds (lookupLoop_agrees, lookupEntryWHash_agrees); rebuilt and axiom-audited with the property theorems. Insert, delete and resize are not translated yet.",
-    technique="Lean 4 proof (representation invariant + refinement to an association list, induction over histories) +  + agreement theorems with Lean definitions translated from the current C source (clang AST) on every run"
-              "model/implementation correspondence run",
+    technique="Lean 4 proof (representation invariant + refinement to an association list, induction over histories) + "
+              "model/implementation correspondence run + agreement theorems with Lean definitions translated from the current C source (clang AST) on every run",
     design="6/C06")
 
 TAG_RESIZE = "lh.resize.size-not-propagated"
